@@ -23,6 +23,7 @@ func RunC06(c *Ctx, r *Report) {
 	em := a.encryptMsg
 	r.Func(c.FuncName(em))
 	c.protectTotality(r, prefix)
+	c.registryLengthRules(r, prefix)
 	f := c.NewFA(em)
 	rule := prefix + "protect-order"
 	r.Rule(rule, "encryptMsg: inner = Payloads.Encode() of the original list; ciphertext = encryptPayload(inner); Reset and BuildEncrypted(next, ciphertext|Zero(L)) dominate the ikeMsg.Encode() whose result minus its last L octets is MAC'd; the MAC is copied into sk.EncryptedData[len-L:] of the payload BuildEncrypted returned; after that Encode nothing but the checksum copy changes the message", 6)
